@@ -1,7 +1,7 @@
 /-
 C05 — special reductions of zz_red.c: zzRedCrandMont (both editions) = Montgomery reduction
 for a Crandall modulus; zzRedBarr: the defect of the old SAFE edition (counterexample) and the
-statements that remain to be proved.  Models: ModelRed.lean, helper lemmas: LemmasRed.lean.
+general theorems for the repaired code.  Models: ModelRed.lean, helper lemmas: LemmasRed.lean.
 -/
 import Bee2V.C05.LemmasRed
 import Bee2V.C05.PropsMul
@@ -139,21 +139,14 @@ code before the repair.  The old SAFE edition violates the header's formula: wit
 (w = 8, n = 3; the same construction works for every word size, on the real library for
 w = 64: mod = 2^192 - 2^96 + 1).
 
-NOT YET PROVED (full statements; `param = zzRedBarrStart w mod`, header preconditions
-`mod ≠ []`, `2^(w*(n-1)) ≤ val w mod` (mod[n-1] ≠ 0), `a.length = 2 * mod.length`, Wf):
-
-  zzRedBarr_fast_spec :
-    val w (zzRedBarr_fast w a mod (zzRedBarrStart w mod)) = val w a % val w mod
-    ∧ val w (zzRedBarr_fast ..) < val w mod ∧ Wf w (zzRedBarr_fast ..)
-    ∧ (zzRedBarr_fast ..).length = mod.length
-  zzRedBarr_safe_spec : the same for zzRedBarr_safe (repaired mask)
-  zzRedBarr_safe_eq_fast : zzRedBarr_safe .. = zzRedBarr_fast ..
-
-Missing: the quotient-estimate lemma (q - 2 ≤ q̂ ≤ q, hence the (n+1)-word difference is
-`a - q̂ mod < 3 mod` and its top word is ≤ 2) and the two-round / while-loop correction on top
-of it; the word-level pieces (zzMul_spec, zzSub2, zzSubAndW_mask, zzRedMontCmp_spec,
-wwCmp2) are available.  What is established here: the models agree with the real library on
-302 operations (n = 1..4, w = 64), and the concrete instances below. -/
+The general theorems for the repaired code (`zzRedBarrStart_spec`, `zzRedBarr_fast_spec`,
+`zzRedBarr_safe_spec`, `zzRedBarr_safe_eq_fast`) follow the counterexamples.  They rest on
+`Red.barrett_estimate` (q̂ M ≤ a < (q̂ + 3) M for q̂ = ⌊⌊a / B^{n-1}⌋ μ / B^{n+1}⌋,
+μ = ⌊B^{2n} / M⌋), `Red.barrCommon_spec` (the (n+1)-word truncated subtraction is exactly
+a - q̂ M < 3 M; needs B ≥ 4, i.e. `2 ≤ w`), `Red.barrFastLoop_spec` (the while loop with fuel)
+and `Red.barrRound` (one masked round).  Header remark: zz.h states the precondition of
+zzRedBarrStart as "n > 0 && mod[n] != 0"; this is a typo for mod[n - 1] (the C ASSERT and
+zzRedBarr say mod[n - 1]). -/
 
 /-- the old SAFE(zzRedBarr) returns a wrong remainder (a[n] = 2 after the first subtraction):
     the header promises `a mod mod`, FAST and the repaired SAFE deliver it. -/
@@ -179,6 +172,124 @@ theorem zzRedBarr_safe_old_counterexample64 :
       = [0, 0xfffffffe00000000, 0]
     ∧ val 64 [2 ^ 64 - 1, 2 ^ 64 - 1, 0, 2 ^ 64 - 1, 2 ^ 64 - 1, 2 ^ 64 - 1]
         % val 64 [1, 2 ^ 64 - 2 ^ 32, 2 ^ 64 - 1] = val 64 [0, 0xfffffffe00000000, 0] := by
+  decide +kernel
+
+/-- zzRedBarrStart: `barr_param = B^{2n} div mod`, n + 2 words
+    (precondition n > 0, mod[n-1] ≠ 0, i.e. `B^{n-1} ≤ mod`). -/
+theorem zzRedBarrStart_spec (w : Nat) (mod : List Nat) (hmod : Wf w mod) (hne : mod ≠ [])
+    (hlo : 2 ^ (w * (mod.length - 1)) ≤ val w mod) :
+    val w (zzRedBarrStart w mod) = 2 ^ (w * (2 * mod.length)) / val w mod
+    ∧ Wf w (zzRedBarrStart w mod) ∧ (zzRedBarrStart w mod).length = mod.length + 2 := by
+  obtain ⟨n', hn⟩ : ∃ n', mod.length = n' + 1 :=
+    ⟨mod.length - 1, by have := List.length_pos_iff.mpr hne; omega⟩
+  rw [hn, Nat.add_sub_cancel] at hlo
+  exact barrStart_spec w mod n' hmod hn hlo
+
+example : zzRedBarrStart 8 [0x01, 0xf0, 0xff] = [0xff, 0x0f, 0x00, 0x01, 0x00]
+    ∧ 2 ^ 48 / 0xfff001 = 0x1000fff := by decide
+
+/-- FAST(zzRedBarr) with `barr_param = zzRedBarrStart(mod)`: `a mod mod`
+    (header: n > 0, mod[n-1] ≠ 0, a has 2n words).  `2 ≤ w`: the proof uses `3 mod < B^{n+1}`. -/
+theorem zzRedBarr_fast_spec (w : Nat) (hw : 2 ≤ w) (a mod : List Nat)
+    (ha : Wf w a) (hmod : Wf w mod) (hne : mod ≠ []) (hl : a.length = 2 * mod.length)
+    (hlo : 2 ^ (w * (mod.length - 1)) ≤ val w mod) :
+    val w (zzRedBarr_fast w a mod (zzRedBarrStart w mod)) = val w a % val w mod
+    ∧ val w (zzRedBarr_fast w a mod (zzRedBarrStart w mod)) < val w mod
+    ∧ Wf w (zzRedBarr_fast w a mod (zzRedBarrStart w mod))
+    ∧ (zzRedBarr_fast w a mod (zzRedBarrStart w mod)).length = mod.length := by
+  obtain ⟨n', hn⟩ : ∃ n', mod.length = n' + 1 :=
+    ⟨mod.length - 1, by have := List.length_pos_iff.mpr hne; omega⟩
+  rw [hn, Nat.add_sub_cancel] at hlo
+  rw [hn] at hl
+  obtain ⟨c1, c2, c3, qh, c4⟩ := barrCommon_spec w hw a mod n' hmod hn ha hl hlo
+  have hM0 : 0 < val w mod := Nat.lt_of_lt_of_le (Nat.two_pow_pos _) hlo
+  have hM := val_lt hmod
+  rw [hn] at hM
+  have hfuel : val w (zzRedBarrCommon w a mod (zzRedBarrStart w mod)) / val w mod < 2 ^ (2 * w) := by
+    have h1 : val w (zzRedBarrCommon w a mod (zzRedBarrStart w mod)) / val w mod < 3 :=
+      (Nat.div_lt_iff_lt_mul hM0).mpr c3
+    have h2 : 2 ^ 2 ≤ 2 ^ (2 * w) := Nat.pow_le_pow_right (by omega) (by omega)
+    omega
+  obtain ⟨l1, l2, l3⟩ := barrFastLoop_spec w mod (n' + 1) hmod hn hM0 (2 ^ (2 * w)) _ c1 c2 hfuel
+  unfold zzRedBarr_fast
+  rw [hn]
+  generalize zzRedBarrFastLoop w mod (2 ^ (2 * w)) (zzRedBarrCommon w a mod (zzRedBarrStart w mod))
+    = res at *
+  have hres : val w res = val w a % val w mod := by
+    rw [l3, ← c4, Nat.add_mul_mod_self_right]
+  have hlt : val w res < val w mod := by rw [hres]; exact Nat.mod_lt _ hM0
+  obtain ⟨t1, _⟩ := val_take_mod w res (n' + 1) l1 (by omega)
+  have ht : val w (res.take (n' + 1)) = val w res := by
+    rw [t1]; exact Nat.mod_eq_of_lt (by omega)
+  refine ⟨by rw [ht, hres], by rw [ht]; exact hlt, Wf_take l1 _, by rw [List.length_take, l2]; omega⟩
+
+/-- SAFE(zzRedBarr) (with the repaired flag `w |= wordNeq01(a[n], 0)`): `a mod mod`. -/
+theorem zzRedBarr_safe_spec (w : Nat) (hw : 2 ≤ w) (a mod : List Nat)
+    (ha : Wf w a) (hmod : Wf w mod) (hne : mod ≠ []) (hl : a.length = 2 * mod.length)
+    (hlo : 2 ^ (w * (mod.length - 1)) ≤ val w mod) :
+    val w (zzRedBarr_safe w a mod (zzRedBarrStart w mod)) = val w a % val w mod
+    ∧ val w (zzRedBarr_safe w a mod (zzRedBarrStart w mod)) < val w mod
+    ∧ Wf w (zzRedBarr_safe w a mod (zzRedBarrStart w mod))
+    ∧ (zzRedBarr_safe w a mod (zzRedBarrStart w mod)).length = mod.length := by
+  obtain ⟨n', hn⟩ : ∃ n', mod.length = n' + 1 :=
+    ⟨mod.length - 1, by have := List.length_pos_iff.mpr hne; omega⟩
+  rw [hn, Nat.add_sub_cancel] at hlo
+  rw [hn] at hl
+  obtain ⟨c1, c2, c3, qh, c4⟩ := barrCommon_spec w hw a mod n' hmod hn ha hl hlo
+  have hM0 : 0 < val w mod := Nat.lt_of_lt_of_le (Nat.two_pow_pos _) hlo
+  have hM := val_lt hmod
+  unfold zzRedBarr_safe
+  simp only []
+  rw [hn] at hM ⊢
+  generalize zzRedBarrCommon w a mod (zzRedBarrStart w mod) = c at *
+  obtain ⟨v1, v2, v3, v4⟩ := val_split_top w c (n' + 1) c1 c2
+  generalize c.take (n' + 1) = lo at *
+  generalize c.getD (n' + 1) 0 = top at *
+  -- round 1
+  obtain ⟨r1, r2, r3, r4⟩ := barrRound w (by omega) lo mod top v2 hmod (by rw [v3, hn]) v4
+  rw [hn] at r3 r4
+  rw [wsub_le v4 r1]
+  generalize zzSubAndW w lo mod (wneg w ((zzRedMontCmp lo mod 1).2 ||| wneq01 top 0)) = s at *
+  -- round 2
+  obtain ⟨t1, t2, t3, t4⟩ := barrRound w (by omega) s.1 mod (top - s.2) r2 hmod (by rw [r3, hn])
+    (by omega)
+  rw [hn] at t3 t4
+  generalize zzSubAndW w s.1 mod
+    (wneg w ((zzRedMontCmp s.1 mod 1).2 ||| wneq01 (top - s.2) 0)) = s' at *
+  have hS := val_lt t2
+  rw [t3] at hS
+  generalize 2 ^ (w * (n' + 1)) = P at *
+  generalize P * (top - s.2) = T1 at *
+  have hT2 : P * (top - s.2 - s'.2) = 0 ∨ P ≤ P * (top - s.2 - s'.2) := by
+    rcases Nat.eq_zero_or_pos (top - s.2 - s'.2) with h | h
+    · left; rw [h]; rfl
+    · right; exact Nat.le_mul_of_pos_right _ h
+  generalize P * (top - s.2 - s'.2) = T2 at *
+  have hval : val w s'.1 < val w mod ∧ ∃ k, val w c = val w s'.1 + k * val w mod := by
+    split_ifs at r4 t4
+    · exact ⟨by omega, 2, by omega⟩
+    · exact ⟨by omega, 1, by omega⟩
+    · exact ⟨by omega, 1, by omega⟩
+    · exact ⟨by omega, 0, by omega⟩
+  obtain ⟨h1, k, h2⟩ := hval
+  refine ⟨?_, h1, t2, t3⟩
+  rw [← c4, h2, Nat.add_assoc, ← Nat.add_mul, Nat.add_mul_mod_self_right, Nat.mod_eq_of_lt h1]
+
+/-- SAFE(zzRedBarr) = FAST(zzRedBarr) under the header's preconditions. -/
+theorem zzRedBarr_safe_eq_fast (w : Nat) (hw : 2 ≤ w) (a mod : List Nat)
+    (ha : Wf w a) (hmod : Wf w mod) (hne : mod ≠ []) (hl : a.length = 2 * mod.length)
+    (hlo : 2 ^ (w * (mod.length - 1)) ≤ val w mod) :
+    zzRedBarr_safe w a mod (zzRedBarrStart w mod) = zzRedBarr_fast w a mod (zzRedBarrStart w mod) := by
+  obtain ⟨s1, _, s3, s4⟩ := zzRedBarr_safe_spec w hw a mod ha hmod hne hl hlo
+  obtain ⟨f1, _, f3, f4⟩ := zzRedBarr_fast_spec w hw a mod ha hmod hne hl hlo
+  exact val_inj s3 f3 (s4.trans f4.symm) (s1.trans f1.symm)
+
+example : zzRedBarr_safe 64 [5, 2 ^ 64 - 1, 7, 2 ^ 64 - 3] [2 ^ 64 - 189, 2 ^ 63]
+        (zzRedBarrStart 64 [2 ^ 64 - 189, 2 ^ 63])
+      = toWords 64 2 (val 64 [5, 2 ^ 64 - 1, 7, 2 ^ 64 - 3] % val 64 [2 ^ 64 - 189, 2 ^ 63])
+    ∧ zzRedBarr_fast 64 [5, 2 ^ 64 - 1, 7, 2 ^ 64 - 3] [2 ^ 64 - 189, 2 ^ 63]
+        (zzRedBarrStart 64 [2 ^ 64 - 189, 2 ^ 63])
+      = toWords 64 2 (val 64 [5, 2 ^ 64 - 1, 7, 2 ^ 64 - 3] % val 64 [2 ^ 64 - 189, 2 ^ 63]) := by
   decide +kernel
 
 end Bee2V.C05
